@@ -678,7 +678,7 @@ fn macro_forms(res: &mut PartResult) {
 }
 
 fn parts(ctx: &Ctx) -> Vec<PartSpec> {
-    let b = if ctx.quick() { 50.0 } else { 2400.0 };
+    let b = if ctx.quick() { 150.0 } else { 2400.0 };
     let (steps, nest) = if ctx.quick() { (6, 2) } else { (8, 3) };
     vec![
         PartSpec::new("programs-no-global", json!({"p": "prog", "global": false, "recs": 2, "steps": steps, "nest": nest})).budget(b),
